@@ -72,7 +72,12 @@ def eval_var(var):
 
     """
     try:
-        return literal_eval(var)
+        value = literal_eval(var)
+        # The value is stored in the workflow database as repr(value) and read
+        # back with literal_eval on restart: refuse values which would not
+        # survive that (e.g. 1e999 -> inf, or "...").
+        literal_eval(repr(value))
+        return value
     except ValueError:
         raise InputError(
             f'Invalid template variable: {var}'
